@@ -55,7 +55,7 @@ TRunStart ==
     /\ pc' = [t \in Threads |-> "idle"] /\ mutex' = NoThread /\ idle' = <<>> /\ used' = {}
     /\ has' = [t \in Threads |-> NoArena] /\ fresh' = [t \in Threads |-> FALSE]
     /\ blocks' = <<>> /\ chunks' = <<>> /\ round' = [t \in Threads |-> 0] /\ phase' = 0 /\ alive' = TRUE
-    /\ nseq' = 0 /\ peak' = 0 /\ speak' = 0 /\ written' = {} /\ everCreated' = 0 /\ leaked' = {}
+    /\ nseq' = 0 /\ peak' = 0 /\ speak' = 0 /\ written' = {} /\ everCreated' = 0 /\ leaked' = {} /\ poisoned' = FALSE
     /\ seen' = <<>> /\ nfrees' = 0 /\ mycs' = [t \in Threads |-> 0] /\ Adv
 
 Keep == UNCHANGED <<seen, nfrees, mycs>> /\ Adv
@@ -66,6 +66,7 @@ TGetCs    == Is("get_cs")    /\ GetLock(ev.t) /\ ev.seq = nseq + 1 /\ ev.idle = 
 TCreate   == Is("create")    /\ GetCreateBegin(ev.t, ev.arena) /\ Keep
 TGetPost  == Is("get_post")  /\ (GetPop(ev.t) \/ GetCreateEnd(ev.t)) /\ Keep
 TGetFail  == Is("get_fail")  /\ GetCreateFail(ev.t) /\ Keep
+TGetPanic == Is("get_panic") /\ GetPanic(ev.t) /\ Keep
 TGetDone ==
     /\ Is("get_done")
     /\ LET t == ev.t IN
@@ -163,7 +164,7 @@ TPoolDrop ==
     /\ ev.damaged = <<>>                      \* blocks in leaked arenas outlive the pool
     /\ Keep
 
-TNext == \/ TRunStart \/ TGetWant \/ TGetCs \/ TCreate \/ TGetPost \/ TGetFail \/ TGetDone \/ TUse
+TNext == \/ TRunStart \/ TGetWant \/ TGetCs \/ TCreate \/ TGetPost \/ TGetFail \/ TGetPanic \/ TGetDone \/ TUse
          \/ TDropWant \/ TDropCs \/ TDropPost \/ TDropDone \/ TForget
          \/ TCheck \/ TPoolReset \/ TPoolResetToStart \/ TPoolDrop
 
